@@ -504,6 +504,10 @@ def twin_qc_points(rng, sd, ac, st, cs):
     for name, w in ac1["wings"].items():
         sw, di = w.get("sweep", 0.0), w.get("dihedral", 0.0)
         if "semispan" in w and isinstance(sw, float) and isinstance(di, float) and abs(di) < 60:
+            if not found and abs(sw) < 5.0 and w.get("ll_offset") != "kuchemann":
+                w["sweep"] = sw = 15.0          # (the first such wing is swept in both descriptions: the points then run in x as well)
+            if not found and abs(di) < 2.0:
+                w["dihedral"] = di = 6.0
             found = True
     if not found:
         return None
